@@ -1046,8 +1046,9 @@ theorem C09_writer_real_round_trips_model (cfg : LexCfg) (lookup : Int → RefLo
 /-- the same with the hypothesis reduced to **arithmetic** (final proof round): `h17` of the theorem above is a statement about
     a text — `%.17G`'s layout in three styles, dropped trailing zeros and decimal point, the printed exponent, `strtod`'s lexical
     stage.  All of that is discharged by `dbl_fmtG_readsBack` (`P21/FloatRead.lean`); what is left, `SigDigitsReadBack 17 bits`,
-    mentions no text: the 17 significant digits `Dbl.sigDigits` computes for the double's `m · 2^e2` are a 17-digit number, and
-    with any number of trailing zeros removed `Dbl.ofDecimal` rounds them back to `bits` — "17 significant digits determine a
+    mentions no text: the 17 significant digits `Dbl.sigDigits` computes for the double's `m · 2^e2` (a 17-digit number —
+    `sigDigits_digits`, proved for every rational and precision), with any number of trailing zeros removed, are rounded back to
+    `bits` by `Dbl.ofDecimal` — "17 significant digits determine a
     binary64" (10^16 > 2^53) stated for the model's own `ofRatio`.  It is needed for non-zero values only (±0 is proved), and
     only when neither 15 nor 16 digits convert back. -/
 theorem C09_writer_real_round_trips_arith (cfg : LexCfg) (lookup : Int → RefLookup) (nullable : Bool) (bits : Nat)
